@@ -158,6 +158,24 @@ type failBranch struct {
 }
 
 func failBranches(f *ir.Func) []failBranch {
+	out := failBranchesOf(f)
+	for _, h := range ir.HelpersOf(f) {
+		// the helper's failures are the subject's failures when its error result is checked at the call
+		caller := f
+		if h.Outer.Parent() != f.Fn {
+			if hh := ir.HelperOf(f, h.Outer.Parent()); hh != nil {
+				caller = hh.HF
+			}
+		}
+		if !ErrChecked(caller, h.Outer) {
+			continue
+		}
+		out = append(out, failBranchesOf(h.HF)...)
+	}
+	return out
+}
+
+func failBranchesOf(f *ir.Func) []failBranch {
 	var out []failBranch
 	for _, b := range f.Fn.Blocks {
 		iff, ok := b.Instrs[len(b.Instrs)-1].(*ssa.If)
@@ -334,6 +352,12 @@ func (c *Ctx) ifPos(iff *ssa.If, f *ir.Func) string {
 // contributes the facts of its predecessor, a constant-false edge nothing, any other edge the edge value itself
 // together with the facts of its predecessor.
 func guardDisjuncts(f *ir.Func, b *ssa.BasicBlock, depth int) [][]Cond {
+	if b.Parent() != f.Fn {
+		if h := ir.HelperOf(f, b.Parent()); h != nil {
+			// facts inside a registered helper: the facts at the call that reaches it, conjoined with the helper's own
+			return crossConds(guardDisjuncts(f, h.Outer.Block(), depth), guardDisjuncts(h.HF, b, depth))
+		}
+	}
 	if d := pathDisjuncts(f, b, depth, map[*ssa.BasicBlock]bool{}); d != nil {
 		return d
 	}
@@ -692,7 +716,7 @@ func (c *Ctx) OnlyWhenReturn(fnSpec, valPat, cond, desc string) {
 		return
 	}
 	n := 0
-	for _, b := range f.Fn.Blocks {
+	for _, b := range retBlocks(f) {
 		ret, ok := b.Instrs[len(b.Instrs)-1].(*ssa.Return)
 		if !ok || len(ret.Results) == 0 {
 			continue
@@ -771,7 +795,7 @@ func (c *Ctx) WhenReturn(fnSpec, cond string, idx int, pattern, desc string) {
 		return
 	}
 	n := 0
-	for _, b := range f.Fn.Blocks {
+	for _, b := range retBlocks(f) {
 		ret, ok := b.Instrs[len(b.Instrs)-1].(*ssa.Return)
 		if !ok || idx >= len(ret.Results) {
 			continue
@@ -1091,6 +1115,32 @@ func (c *Ctx) CallArgCase(fnSpec, callee string, idx int, cond, pattern string, 
 		}
 		phi, ok := vals[idx].(*ssa.Phi)
 		if !ok {
+			// the alternatives may be the return statements of a registered helper that computes the argument
+			if hcall, isCall := vals[idx].(*ssa.Call); isCall {
+				if g := hcall.Common().StaticCallee(); g != nil {
+					if h := ir.HelperOf(f, g); h != nil && h.Outer == ssa.CallInstruction(hcall) && g.Signature.Results().Len() == 1 {
+						for _, b := range h.HF.Fn.Blocks {
+							ret, isRet := b.Instrs[len(b.Instrs)-1].(*ssa.Return)
+							if !isRet || len(ret.Results) != 1 {
+								continue
+							}
+							under, _ := condHolds(f, b, cond)
+							m := ir.MatchAny(pattern, f.Term(ret.Results[0]))
+							if under {
+								n++
+								if !m {
+									c.add("K", fnSpec, role, desc, report.Violated, fmt.Sprintf("under %s the argument is %s, want %s", cond, short(f.Term(ret.Results[0]).String()), pattern), c.posOf(call))
+									return
+								}
+							} else if only && m {
+								c.add("K", fnSpec, role, desc, report.Violated, fmt.Sprintf("argument %s also on a path where %s is not established", pattern, cond), c.posOf(call))
+								return
+							}
+						}
+						continue
+					}
+				}
+			}
 			c.add("K", fnSpec, role, desc, report.Violated, "argument is not a join of alternatives: "+short(f.Term(vals[idx]).String()), c.posOf(call))
 			return
 		}
@@ -1207,7 +1257,11 @@ func (c *Ctx) BranchOn(fnSpec, cond string, never []string, desc string) {
 	}
 	found := false
 	var seen []string
-	for _, b := range f.Fn.Blocks {
+	blocks := append([]*ssa.BasicBlock{}, f.Fn.Blocks...)
+	for _, h := range ir.HelpersOf(f) {
+		blocks = append(blocks, h.HF.Fn.Blocks...)
+	}
+	for _, b := range blocks {
 		iff, ok := b.Instrs[len(b.Instrs)-1].(*ssa.If)
 		if !ok {
 			continue
@@ -1690,8 +1744,17 @@ func (c *Ctx) ReturnOnlyUnder(fnSpec string, idx int, cond, pattern, desc string
 			continue
 		}
 		for i, e := range phi.Edges {
-			if !ir.MatchAny(pattern, f.Term(e)) {
-				continue
+			et := f.Term(e)
+			if !ir.MatchAny(pattern, et) {
+				// a non-constant boolean edge (the lowering of `x = a && b`) can carry the value too: it does so only
+				// when it is true, so it must be the condition itself or lie under it
+				if _, isConst := e.(*ssa.Const); isConst || pattern != "true" {
+					continue
+				}
+				if matchCondAny(cond, Normalize(et, true)) {
+					n++
+					continue
+				}
 			}
 			n++
 			if ok, seen := condHolds(f, phi.Block().Preds[i], cond); !ok {
